@@ -78,7 +78,8 @@ func (c19) Gen(seed int64, tier string, avoid []string) *Plan {
 			}
 			ops = append(ops, c19Op{K: "r", S: s, AtUs: at, HS: r.Int63(), Len: pick(r, 0, 10, 500), Seq: seq})
 		case c < 78:
-			ops = append(ops, c19Op{K: "ci", AtUs: at, HS: r.Int63()})
+			// (the read is issued now, the transport delivers the packet Len microseconds later)
+			ops = append(ops, c19Op{K: "ci", AtUs: at, HS: r.Int63(), Len: pick(r, 0, 0, 300, 20000)})
 		case c < 90:
 			ops = append(ops, c19Op{K: "co", AtUs: at, HS: r.Int63()})
 		default:
@@ -164,7 +165,16 @@ func (c19) Run(e *Env) {
 	exp := map[uint32]*c19Exp{}
 	rtcpW := ic.BindRTCPWriter(interceptor.RTCPWriterFunc(func(p []rtcp.Packet, _ interceptor.Attributes) (int, error) { return 0, nil }))
 	var rtcpIn []byte
+	var rtcpBlockUs int64
+	var rtcpArrival time.Time
 	rtcpR := ic.BindRTCPReader(interceptor.RTCPReaderFunc(func(b []byte, a interceptor.Attributes) (int, interceptor.Attributes, error) {
+		if rtcpBlockUs > 0 {
+			// a read loop: Read was issued earlier and blocks until the packet arrives
+			simrt.Sleep(us(rtcpBlockUs))
+		}
+		keep := lastTS
+		rtcpArrival = clock()
+		lastTS = keep
 		return copy(b, rtcpIn), a, nil
 	}))
 	lw := make([]interceptor.RTPWriter, len(cfg.Local))
@@ -296,9 +306,14 @@ func (c19) Run(e *Env) {
 						continue
 					}
 					rtcpIn = raw
+					rtcpBlockUs = 0
+					if !cfg.Concurrent {
+						rtcpBlockUs = int64(o.Len)
+					}
 					parsed, _ := rtcp.Unmarshal(raw)
 					rtcpR.Read(buf, interceptor.Attributes{})
-					c19ApplyIncoming(exp, parsed, lastTS)
+					// the packet is received when the transport hands it over, not when the read was issued
+					c19ApplyIncoming(exp, parsed, rtcpArrival)
 					e.Probe("rtcp_in")
 				} else {
 					rtcpW.Write(pkts, interceptor.Attributes{})
